@@ -79,7 +79,9 @@ def run_case(n, edges, flags, redirects, pre_probe=()):
         red = []
         for ri, (kind, t) in enumerate(redirects):
             # kind 'to': redirect page R -> template t ; kind 'from': template-like page R flagged, redirecting to t
-            ctx.add_page("Template:" + rnames[ri], 10, None, redirect_to="Template:" + names[t])
+            # t: a template index, or "R<j>" naming an earlier redirect page (a redirect chain)
+            ctx.add_page("Template:" + rnames[ri], 10, None,
+                         redirect_to="Template:" + (names[t] if isinstance(t, int) else t))
             red.append((kind, "R%d" % ri, t))
         ctx.db_conn.commit()
 
@@ -114,7 +116,7 @@ def run_case(n, edges, flags, redirects, pre_probe=()):
         nodes_extra = {}
         for kind, rn, t in red:
             rid = "r:" + rn
-            redirect_pairs.append((rid, t))
+            redirect_pairs.append((rid, t if isinstance(t, int) else "r:" + t))
             if kind == "from":
                 fl.add(rid)
         m, m3 = closure(n, edges, fl, redirect_pairs)
@@ -161,12 +163,22 @@ for _ in range(150 if tier == "quick" else 1500):
     reds = [(rng.choice(["to", "from"]), rng.randrange(n)) for _ in range(rng.randint(0, 2))]
     probe = [i for i in range(n) if rng.random() < 0.3]
     run_case(n, edges, flags, reds, probe)
+# redirect chains: a redirect whose destination is itself a (flagged or unflagged) redirect page
+for n in (1, 2):
+    for k1 in ("to", "from"):
+        for k2 in ("to", "from"):
+            for k3 in (None, "to", "from"):
+                for fl in (set(), {0}):
+                    reds = [(k1, 0), (k2, "R0")] + ([(k3, "R1")] if k3 else [])
+                    run_case(n, [(0, 1)] if n == 2 else [], fl, reds)
 for _ in range(60 if tier == "quick" else 2000):
     n = rng.randint(4, 8)
     pairs = [(a, b) for a in range(n) for b in range(n)]
     edges = [p for p in pairs if rng.random() < 0.2]
     flags = {i for i in range(n) if rng.random() < 0.25}
-    reds = [(rng.choice(["to", "from"]), rng.randrange(n)) for _ in range(rng.randint(0, 3))]
+    reds = []
+    for ri in range(rng.randint(0, 3)):
+        reds.append((rng.choice(["to", "from"]), ("R%d" % rng.randrange(ri)) if ri and rng.random() < 0.4 else rng.randrange(n)))
     probe = [i for i in range(n) if rng.random() < 0.2]
     run_case(n, edges, flags, reds, probe)
 # re-analysis histories: analyse, add more templates (some including already marked ones), analyse again
@@ -231,4 +243,4 @@ emit({"evaluations": evaluations, "distinct_nontrivial": len({d for d in distinc
               "at least one edge or redirect",
       "failures": list(failures.values()), "samples": samples,
       "bound": f"all inclusion graphs incl. self-inclusion on <= {nmax} templates x all flag sets; sampled graphs on 3..8 "
-               "templates with redirects (to/from a marked template) and lookups made before the page exists; 10 s watchdog"})
+               "templates with redirects (to/from a marked template, chains of redirects) and lookups made before the page exists; 10 s watchdog"})
